@@ -23,7 +23,9 @@ def gen(rng) -> dict:
         jobs.append({"id": i, "queue": rng.choice(qs), "dur": rng.choice([0, 0, 3000, 3000, 40_000]), "at": 0,
                      "fail": rng.random() < 0.35, "retries": rng.choice([0, 0, 1]), "result": rng.random() < 0.4})
     return {"limit": rng.choice([1, 2, 5]), "M": None if rng.random() < 0.8 else rng.randint(1, n), "queues": qs, "jobs": jobs,
-            "graceful": rng.choice([0.0, 0.0, 0.01, 0.2]), "stop_at": None, "run_timeout": 30}
+            "graceful": rng.choice([0.0, 0.0, 0.01, 0.2]), "stop_at": None, "run_timeout": 30,
+            # a broker whose ack / nack / requeue / reject take time on the wire (the in-memory ones take effect within two iterations)
+            "round_trip": rng.choice([0.0, 0.0, 0.002, 0.03])}
 
 
 def oracle(sc: dict, r: dict) -> list:
@@ -173,6 +175,9 @@ def run(ctx: Ctx) -> Result:
     _rabbit.consume_waiting_cuts(ctx, res)
     from . import _wstop
     _wstop.worker_stop_cuts(ctx, res)
+    # the consumer's hand-over pipeline, snapshot by snapshot, against Handover.v
+    from . import _handover
+    _handover.check(ctx, res)
     seen, uniq = set(), []
     for f in res.failures:
         if f.kind not in seen:
@@ -183,8 +188,43 @@ def run(ctx: Ctx) -> Result:
 
 
 def replay(ctx: Ctx, rp: dict) -> dict:
-    sc = (rp.get("case") or rp["first_diverging_case"]["case"])["scenario"]
+    case = rp.get("case") or rp["first_diverging_case"]["case"]
     out = {}
+    if "handover_run" in case:
+        from . import _handover
+        import repid.connections.redis.utils as ru
+        h = case["handover_run"]
+        ru.random.random = lambda: 0.8
+
+        async def hmain(loop):
+            loop.set_exception_handler(lambda l, c: None)
+            r = await _handover.one_run(loop, h["scenario"], h["k"], h["c"])
+            segs, problem = _handover.segments(r)
+            final = r["snaps"][-1]
+            out.update({"snapshots (phase, call, late, custody per message, expired per message)": r["snaps"], "custody_names": _handover.NAMES,
+                        "problem": problem or r["err"], "late": r["late"],
+                        "left_behind": {i: cu for i, cu in zip(r["ids"], final[3])
+                                        if cu not in (_handover.Q, _handover.DEAD, _handover.CALLER) and not (cu == _handover.UND and r["late"])}})
+        run_virtual(hmain)
+        out["fails"] = bool(out["problem"] or out["left_behind"])
+        return out
+    if "worker_stop_cut" in case:
+        from . import _wstop
+        import repid.connections.redis.utils as ru
+        o = case["worker_stop_cut"]
+        ru.random.random = lambda: 0.8
+
+        async def wmain(loop):
+            loop.set_exception_handler(lambda l, c: None)
+            r = await _wstop.one_run(loop, o["broker"], o["k"], o["durs"], o["graceful"], o.get("queues", 1), o.get("messages_limit"),
+                                     o.get("tasks_limit", 2), o.get("jobs", 4), o.get("subscribers", False), o.get("eager", False))
+            out.update(r)
+        run_virtual(wmain)
+        out["fails"] = bool(out["err"] or out["inflight"] or out["dup"] or out.get("ghosts"))
+        return out
+    if "scenario" not in case:
+        return {"fails": None, "note": "this kind of case is re-run by `./check C03` as a whole (the cut-point enumerations are deterministic)"}
+    sc = case["scenario"]
 
     async def main(loop):
         loop.set_exception_handler(lambda l, c: None)
